@@ -1,23 +1,28 @@
 //! C13 / C14 — observable vector and its mirror (`robs/vec.rs`): one mutator of the real
-//! `ObservableVec`, its events taken from a real snapshot subscription and applied with the real
-//! `MirroredVecInner::handle_event`; afterwards mirror == collection.
+//! `ObservableVec`; the events it hands to `robs::send_event` (captured by the cfg(remoc_verif)
+//! hook in emission order, instead of being broadcast) are applied with the real `MirroredVecInner::handle_event`;
+//! afterwards mirror == collection.  The transport of events (rch::broadcast, rch::mpsc, codecs)
+//! is not part of these harnesses.
 
 use super::util::*;
-use crate::robs::vec::{verif_hooks::VMirror, ObservableVec, VecEvent, VecSubscription};
-use std::task::Poll;
+use crate::robs::vec::{verif_hooks::VMirror, ObservableVec, VecEvent};
+use crate::robs::RecvError;
 
-/// Contents of symbolic length 0..=2 with symbolic elements.
-fn any_vec() -> Vec<u8> {
-    let n: usize = kani::any();
-    kani::assume(n <= 2);
-    let a: u8 = kani::any();
-    let b: u8 = kani::any();
-    let mut v = Vec::new();
-    if n >= 1 {
-        v.push(a);
-    }
-    if n >= 2 {
-        v.push(b);
+const MAXLEN: usize = 3;
+
+/// Contents of the given (concrete) length with symbolic elements.  The length is concrete per
+/// harness and indices are case-split (`concrete_index!`): `Vec::insert/remove` are `memmove`s whose
+/// size CBMC must know, a symbolic size does not terminate.
+fn any_vec(n: usize) -> Vec<u8> {
+    assert!(n <= MAXLEN);
+    let e: [u8; MAXLEN] = kani::any();
+    let mut v = Vec::with_capacity(8);
+    let mut i = 0;
+    while i < MAXLEN {
+        if i < n {
+            v.push(e[i]);
+        }
+        i += 1;
     }
     v
 }
@@ -36,26 +41,31 @@ fn same(a: &Vec<u8>, b: &Vec<u8>) -> bool {
     true
 }
 
-/// Applies all pending events of the subscription to the mirror; returns how many were applied.
-fn drain(sub: &mut VecSubscription<u8>, mirror: &mut VMirror<u8>) -> usize {
-    let mut n = 0;
-    while n < 4 {
-        let mut slot = Slot::new(sub.recv());
-        match slot.poll() {
-            Poll::Ready(Ok(Some(evt))) => {
-                assert!(mirror.handle_event(evt).is_ok());
-                n += 1;
-            }
-            Poll::Ready(Ok(None)) => break,
-            Poll::Ready(Err(_)) => panic!("subscription reported an error"),
-            Poll::Pending => break,
-        }
+/// Applies every recorded event to the mirror with the real `handle_event`; returns how many there were.
+fn drain(mirror: &mut VMirror<u8>) -> usize {
+    let evts: Vec<VecEvent<u8>> = crate::robs::verif_hooks::take_events();
+    let n = evts.len();
+    for evt in evts {
+        assert!(mirror.handle_event(evt).is_ok());
     }
     n
 }
 
+/// Runs `$body` with `$c` bound to the concrete value of the symbolic index `$i` (0..=4).
+macro_rules! concrete_index {
+    ($i:expr, $c:ident => $body:expr) => {
+        match $i {
+            0 => { let $c: usize = 0; $body }
+            1 => { let $c: usize = 1; $body }
+            2 => { let $c: usize = 2; $body }
+            3 => { let $c: usize = 3; $body }
+            _ => { let $c: usize = 4; $body }
+        }
+    };
+}
+
 #[derive(Clone, Copy, PartialEq, Eq)]
-enum Op {
+pub enum Op {
     Push,
     Pop,
     Insert,
@@ -63,108 +73,322 @@ enum Op {
     SwapRemove,
     GetMutWrite,
     GetMutRead,
+    IterMutWrite,
+    IterMutBackWrite,
     Fill,
     Resize,
     Truncate,
     Clear,
+    Retain,
+    ShrinkToFit,
     Done,
 }
 
-fn vec_step_case(op: Op) {
-    let v0 = any_vec();
+fn vec_step_case(op: Op, n: usize) {
+    let v0 = any_vec(n);
     let len0 = v0.len();
-    let mut ov: ObservableVec<u8> = ObservableVec::from(v0);
-    let mut sub = ov.subscribe(8);
-    let initial = sub.take_initial().expect("snapshot subscription carries the contents");
-    let mut mirror = VMirror::new(initial, true, false, 16);
-    assert!(same(mirror.contents(), &ov));
+    // reference copy for the independent oracle
+    let mut model: [u8; 8] = [0; 8];
+    let mut k = 0;
+    while k < len0 {
+        model[k] = v0[k];
+        k += 1;
+    }
+    let mut ov: ObservableVec<u8> = ObservableVec::from(v0.clone());
+    let mut mirror = VMirror::new(v0, true, false, 16);
+    crate::robs::verif_hooks::set_capture(true);
 
     let x: u8 = kani::any();
     let i: usize = kani::any();
+    kani::assume(i <= MAXLEN + 1);
+    // independent expectation of the collection's contents after the step (Vec semantics)
+    let mut exp_len = len0;
     match op {
-        Op::Push => ov.push(x),
+        Op::Push => {
+            ov.push(x);
+            model[len0] = x;
+            exp_len = len0 + 1;
+        }
         Op::Pop => {
-            let _ = ov.pop();
+            let r = ov.pop();
+            if len0 > 0 {
+                assert!(r == Some(model[len0 - 1]));
+                exp_len = len0 - 1;
+            } else {
+                assert!(r.is_none());
+            }
         }
         Op::Insert => {
             kani::assume(i <= len0); // documented panic otherwise
-            ov.insert(i, x);
+            concrete_index!(i, c => ov.insert(c, x));
+            let mut k = len0;
+            while k > i {
+                model[k] = model[k - 1];
+                k -= 1;
+            }
+            model[i] = x;
+            exp_len = len0 + 1;
         }
         Op::Remove => {
             kani::assume(i < len0); // documented panic otherwise
-            let _ = ov.remove(i);
+            let r = concrete_index!(i, c => ov.remove(c));
+            assert!(r == model[i]);
+            let mut k = i;
+            while k + 1 < len0 {
+                model[k] = model[k + 1];
+                k += 1;
+            }
+            exp_len = len0 - 1;
         }
         Op::SwapRemove => {
             kani::assume(i < len0); // documented panic otherwise
-            let _ = ov.swap_remove(i);
+            let r = concrete_index!(i, c => ov.swap_remove(c));
+            assert!(r == model[i]);
+            model[i] = model[len0 - 1];
+            exp_len = len0 - 1;
         }
         Op::GetMutWrite => {
-            kani::assume(i <= 2);
-            if let Some(mut r) = ov.get_mut(i) {
-                *r = x;
+            kani::assume(i <= MAXLEN);
+            match ov.get_mut(i) {
+                Some(mut r) => {
+                    assert!(i < len0);
+                    *r = x;
+                    model[i] = x;
+                }
+                None => assert!(i >= len0),
             }
         }
         Op::GetMutRead => {
-            kani::assume(i <= 2);
+            kani::assume(i <= MAXLEN);
             if let Some(r) = ov.get_mut(i) {
-                let _ = *r;
+                assert!(*r == model[i]);
             }
         }
-        Op::Fill => ov.fill(x),
+        Op::IterMutWrite => {
+            // write through the i-th reference handed out by the iterator (front to back)
+            kani::assume(i < len0);
+            let mut pos = 0;
+            for mut r in ov.iter_mut() {
+                if pos == i {
+                    *r = x;
+                }
+                pos += 1;
+            }
+            assert!(pos == len0);
+            model[i] = x;
+        }
+        Op::IterMutBackWrite => {
+            // write through the i-th reference counted from the back
+            kani::assume(i < len0);
+            let mut it = ov.iter_mut();
+            let mut pos = 0;
+            while let Some(mut r) = it.next_back() {
+                if pos == i {
+                    *r = x;
+                }
+                pos += 1;
+            }
+            assert!(pos == len0);
+            model[len0 - 1 - i] = x;
+        }
+        Op::Fill => {
+            ov.fill(x);
+            let mut k = 0;
+            while k < len0 {
+                model[k] = x;
+                k += 1;
+            }
+        }
         Op::Resize => {
-            kani::assume(i <= 3);
-            ov.resize(i, x);
+            kani::assume(i <= MAXLEN + 1);
+            concrete_index!(i, c => ov.resize(c, x));
+            let mut k = len0;
+            while k < i {
+                model[k] = x;
+                k += 1;
+            }
+            exp_len = i;
         }
         Op::Truncate => {
-            kani::assume(i <= 3);
-            ov.truncate(i);
+            kani::assume(i <= MAXLEN + 1);
+            concrete_index!(i, c => ov.truncate(c));
+            if i < len0 {
+                exp_len = i;
+            }
         }
-        Op::Clear => ov.clear(),
+        Op::Clear => {
+            ov.clear();
+            exp_len = 0;
+        }
+        Op::Retain => {
+            // arbitrary predicate: keep element number k iff bit k of the mask is set
+            let mask: u8 = kani::any();
+            let mut pos = 0u8;
+            ov.retain(|_| {
+                let keep = (mask >> pos) & 1 == 1;
+                pos += 1;
+                keep
+            });
+            let mut w = 0;
+            let mut k = 0;
+            while k < len0 {
+                if (mask >> k) & 1 == 1 {
+                    model[w] = model[k];
+                    w += 1;
+                }
+                k += 1;
+            }
+            exp_len = w;
+        }
+        Op::ShrinkToFit => ov.shrink_to_fit(),
         Op::Done => ov.done(),
     }
 
-    let applied = drain(&mut sub, &mut mirror);
+    // the collection itself behaves like a Vec (independent oracle) ...
+    assert!(ov.len() == exp_len);
+    let mut k = 0;
+    while k < exp_len {
+        assert!(ov[k] == model[k]);
+        k += 1;
+    }
+    // ... and the mirror, fed with exactly the emitted events, equals it
+    let applied = drain(&mut mirror);
     assert!(same(mirror.contents(), &ov));
     assert!(mirror.flags().1 == ov.is_done());
+    assert!(ov.is_done() == (op == Op::Done));
     kani::cover!(applied >= 1, "an event was emitted and applied");
-    tokio::model::forget_tasks();
-    std::mem::forget((ov, sub, mirror));
+    kani::cover!(applied == 0, "no-op: nothing emitted, mirror untouched");
+    std::mem::forget((ov, mirror));
 }
 
 macro_rules! vec_step_harness {
-    ($($name:ident, $op:expr;)*) => {$(
+    ($($name:ident, $op:expr, $n:expr;)*) => {$(
         with_lean_model! {
         /// @prop C13
         /// @tier quick
-        /// @fn robs::vec::ObservableVec::{push,pop,insert,remove,swap_remove,get_mut,fill,resize,truncate,clear,done}
+        /// @covers any
+        /// @fn robs::vec::ObservableVec::{push,pop,insert,remove,swap_remove,get_mut,iter_mut,fill,resize,truncate,clear,retain,shrink_to_fit,done}
         /// @fn robs::vec::RefMut::drop
-        /// @fn robs::vec::VecSubscription::{take_initial,recv}
+        /// @fn robs::vec::IterMut::{next,next_back}
+        /// @fn robs::send_event
         /// @fn robs::vec::MirroredVecInner::handle_event
-        /// @fn rch::broadcast::Sender::send
-        /// @bounds one mutator per harness; initial contents of length 0..=2 with symbolic u8 elements; index / new length / value arguments symbolic (indices restricted to the documented non-panicking range); snapshot subscription with room for all events
-        /// @outside vectors longer than 2 before the step (longer histories are covered by induction over steps, longer vectors are not); incremental subscriptions and remote mirrors (spawned tasks, serde)
-        /// after the mirror has processed the events the mutator emitted, it holds exactly the vector's contents, and reports done iff done() was called
+        /// @bounds one mutator and one initial length (0..=3, see harness name) per harness, symbolic u8 elements; index / new length / value / retain-predicate arguments symbolic (indices restricted to the documented non-panicking range); the mirror starts equal to the contents (snapshot subscription)
+        /// @outside vectors longer than 3 before the step (longer histories are covered by induction over steps, longer vectors are not); the event transport (rch::broadcast / rch::mpsc / codecs / mirror task), incremental subscriptions and remote mirrors
+        /// the collection behaves like a Vec, and after the mirror has processed exactly the events the mutator emitted it holds exactly the vector's contents and reports done iff done() was called
         #[kani::proof]
-        #[kani::unwind(5)]
+        #[kani::unwind(6)]
         #[kani::stub(alloc::fmt::format, empty_format)]
         fn $name() {
-            vec_step_case($op);
+            vec_step_case($op, $n);
         }
         }
     )*};
 }
 
 vec_step_harness! {
-    c13_vec_push, Op::Push;
-    c13_vec_pop, Op::Pop;
-    c13_vec_insert, Op::Insert;
-    c13_vec_remove, Op::Remove;
-    c13_vec_swap_remove, Op::SwapRemove;
-    c13_vec_get_mut_write, Op::GetMutWrite;
-    c13_vec_get_mut_read, Op::GetMutRead;
-    c13_vec_fill, Op::Fill;
-    c13_vec_resize, Op::Resize;
-    c13_vec_truncate, Op::Truncate;
-    c13_vec_clear, Op::Clear;
-    c13_vec_done, Op::Done;
+    c13_vec_push_n0, Op::Push, 0;
+    c13_vec_push_n2, Op::Push, 2;
+    c13_vec_pop_n0, Op::Pop, 0;
+    c13_vec_pop_n1, Op::Pop, 1;
+    c13_vec_pop_n3, Op::Pop, 3;
+    c13_vec_insert_n0, Op::Insert, 0;
+    c13_vec_insert_n3, Op::Insert, 3;
+    c13_vec_remove_n1, Op::Remove, 1;
+    c13_vec_remove_n3, Op::Remove, 3;
+    c13_vec_swap_remove_n1, Op::SwapRemove, 1;
+    c13_vec_swap_remove_n3, Op::SwapRemove, 3;
+    c13_vec_get_mut_write_n3, Op::GetMutWrite, 3;
+    c13_vec_get_mut_read_n3, Op::GetMutRead, 3;
+    c13_vec_iter_mut_write_n3, Op::IterMutWrite, 3;
+    c13_vec_iter_mut_back_write_n3, Op::IterMutBackWrite, 3;
+    c13_vec_fill_n0, Op::Fill, 0;
+    c13_vec_fill_n3, Op::Fill, 3;
+    c13_vec_resize_n2, Op::Resize, 2;
+    c13_vec_truncate_n2, Op::Truncate, 2;
+    c13_vec_clear_n0, Op::Clear, 0;
+    c13_vec_clear_n2, Op::Clear, 2;
+    c13_vec_retain_n3, Op::Retain, 3;
+    c13_vec_shrink_to_fit_n1, Op::ShrinkToFit, 1;
+    c13_vec_done_n1, Op::Done, 1;
+}
+
+// ---------------------------------------------------------------------------
+// C14: events that do not apply are reported, never silently mis-applied
+
+/// `kind`: 0 Insert, 1 Set, 2 Remove, 3 SwapRemove, 4 Push beyond the size limit
+fn vec_mirror_reject_case(kind: u8, n: usize) {
+    let v0 = any_vec(n);
+    let len0 = v0.len();
+    let before = v0.clone();
+    let max_size: usize = if kind == 4 { len0 } else { 16 };
+    let mut mirror = VMirror::new(v0, true, false, max_size);
+    let i: usize = kani::any();
+    let x: u8 = kani::any();
+    let evt0 = match kind {
+        0 => VecEvent::Insert(i, x),
+        1 => VecEvent::Set(i, x),
+        2 => VecEvent::Remove(i),
+        3 => VecEvent::SwapRemove(i),
+        _ => VecEvent::Push(x),
+    };
+    // indices that apply are case-split (concrete memmove sizes); all others stay fully symbolic
+    let res = if i <= len0 {
+        let evt = concrete_index!(i, c => match kind {
+            0 => VecEvent::Insert(c, x),
+            1 => VecEvent::Set(c, x),
+            2 => VecEvent::Remove(c),
+            3 => VecEvent::SwapRemove(c),
+            _ => VecEvent::Push(x),
+        });
+        std::mem::forget(evt0);
+        mirror.handle_event(evt)
+    } else {
+        mirror.handle_event(evt0)
+    };
+    let applies = match kind {
+        0 => i <= len0,
+        4 => false,
+        _ => i < len0,
+    };
+    if applies {
+        assert!(res.is_ok());
+    } else {
+        match (kind, &res) {
+            (4, Err(RecvError::MaxSizeExceeded(m))) => assert!(*m == max_size),
+            (0..=3, Err(RecvError::InvalidIndex(j))) => {
+                assert!(*j == i);
+                // an event that does not apply leaves the last consistent contents in place
+                assert!(same(mirror.contents(), &before));
+            }
+            _ => panic!("an event that does not apply must be reported with its documented error"),
+        }
+        kani::cover!(true, "inapplicable event reported");
+    }
+    std::mem::forget((mirror, before, res));
+}
+
+macro_rules! vec_reject_harness {
+    ($($name:ident, $kind:expr, $n:expr;)*) => {$(
+        /// @prop C14
+        /// @tier quick
+        /// @covers any
+        /// @fn robs::vec::MirroredVecInner::handle_event
+        /// @bounds mirror contents of length 2 (symbolic u8 elements); one event kind per harness (Insert, Set, Remove, SwapRemove with a fully symbolic index; Push at the size limit)
+        /// @outside the mirror task that stores the error and stops applying events (spawned task); lag / drop-before-done / connection errors (channel layer)
+        /// an index event is applied iff its index is valid for the current contents, otherwise InvalidIndex(index) is returned and the contents are untouched; a Push beyond max_size yields MaxSizeExceeded(max_size); nothing panics
+        #[kani::proof]
+        #[kani::unwind(6)]
+        #[kani::stub(alloc::fmt::format, empty_format)]
+        fn $name() {
+            vec_mirror_reject_case($kind, $n);
+        }
+    )*};
+}
+
+vec_reject_harness! {
+    c14_vec_mirror_insert_index, 0, 2;
+    c14_vec_mirror_set_index, 1, 2;
+    c14_vec_mirror_remove_index, 2, 2;
+    c14_vec_mirror_swap_remove_index, 3, 2;
+    c14_vec_mirror_push_max_size, 4, 2;
 }
